@@ -57,7 +57,8 @@ pub fn check_table(c: &TableCase) -> CaseResult {
     let ps = probes();
     let mut between = false;
     let configured: std::collections::BTreeSet<usize> = c.batches.iter().flatten().map(|(g, _)| *g).collect();
-    for gap in 0..=10usize {
+    let top = configured.iter().next_back().copied().unwrap_or(0).max(8) + 2;
+    for gap in 0..=top {
         let lim = reference_limit(&c.batches, gap);
         if !configured.contains(&gap) && configured.range(..gap).next().is_some() && configured.range(gap..).next().is_some() {
             between = true;
@@ -75,7 +76,8 @@ pub fn check_table(c: &TableCase) -> CaseResult {
             }
         }
     }
-    Ok(CaseOk::new(between).label_if(c.batches.len() > 1, "several_batches"))
+    let raw = c.batches.iter().map(|b| b.len()).sum::<usize>();
+    Ok(CaseOk::new(between).label_if(c.batches.len() > 1, "several_batches").label_if(raw > 20, "more_than_20_raw_entries").label_if(raw > configured.len(), "gap_configured_twice"))
 }
 
 /// Exhaustive tables: every assignment of {absent, limit} to gaps 0..8 is too large
@@ -148,6 +150,11 @@ pub fn run_tables(env: &Env, rep: &Report) {
             });
         }
     });
+    // long tables (accumulated over several calls, many gaps configured more than once)
+    let big = || {
+        proptest::collection::vec(proptest::collection::vec((prop_oneof![3 => 0usize..12, 2 => 0usize..40], (0usize..LIMITS.len()).prop_map(|i| LIMITS[i])), 1..48), 1..4).prop_map(|batches| TableCase { batches })
+    };
+    par_generated(rep, "big-tables", big, env.tier.pick(40_000, 600_000), workers(), check_table);
     rep.set_exhaustive("tables", true);
     rep.note("tables", "every table over <=3 (thorough: <=4) of the gaps 0..8 with limits from {0.25,0.5,1,2,4}, sorted and reversed insertion, first gap optionally configured twice (same batch before/after, earlier/later batch); probed at gaps 0..10 x 32 distances (0, each limit +-2 ulp, 0.75*limit, 10)".into());
 }
@@ -196,7 +203,7 @@ pub fn check_nonbinding(h: &History) -> CaseResult {
 pub fn run_trackers(env: &Env, rep: &Report) {
     use crate::props::c01::{iso_check, KINDS};
     let pool = IsoPool::new(&env.prop, "binding", std::time::Duration::from_secs(120));
-    let n = env.tier.pick(1_500, 20_000);
+    let n = env.tier.pick(4_000, 30_000);
     for kind in KINDS {
         let strat = move || (history(kind, false, 40), table()).prop_map(|(mut h, t)| {
             h.cfg.constraints = Some(t);
@@ -205,7 +212,7 @@ pub fn run_trackers(env: &Env, rep: &Report) {
         par_generated(rep, "binding", strat, n, workers(), iso_check(&pool, rep));
     }
     let pool2 = IsoPool::new(&env.prop, "nonbinding", std::time::Duration::from_secs(120));
-    let n = env.tier.pick(1_000, 12_000);
+    let n = env.tier.pick(2_500, 20_000);
     for kind in KINDS {
         let strat = move || (history_opts(kind, false, 40, false), table()).prop_map(|(mut h, t)| {
             h.cfg.constraints = Some(t);
@@ -224,7 +231,7 @@ pub fn run(env: &Env, rep: &Report) {
 
 pub fn replay(sub: &str, case: Value) -> Option<CaseResult> {
     match sub {
-        "tables" => Some(replay_case(case, check_table, sub)),
+        "tables" | "big-tables" => Some(replay_case(case, check_table, sub)),
         "binding" => Some(replay_case(case, check_binding, sub)),
         "nonbinding" => Some(replay_case(case, check_nonbinding, sub)),
         _ => None,
